@@ -338,6 +338,7 @@ func c12ReadBack(r *eng.Run, compressed, msg []byte, what string) {
 		src.SegMode = SegTiny
 	}
 	src.EOFWithData = r.T.Chance(sim.LFault, 1, 3) // last bytes arrive together with io.EOF
+	src.ZeroReads = r.T.Chance(sim.LFault, 1, 4)   // now and then a Read returns (0, nil), as wsutil.Reader does between fragments
 	var rd io.Reader = src
 	byteReader := r.T.Bool(sim.LCfg)
 	if byteReader {
@@ -374,11 +375,15 @@ type byteSrc struct{ p *Pipe }
 func (b *byteSrc) Read(p []byte) (int, error) { return b.p.Read(p) }
 func (b *byteSrc) ReadByte() (byte, error) {
 	var one [1]byte
-	n, err := b.p.Read(one[:])
-	if n == 1 {
-		return one[0], nil
+	for {
+		n, err := b.p.Read(one[:])
+		if n == 1 {
+			return one[0], nil
+		}
+		if err != nil {
+			return 0, err
+		}
 	}
-	return 0, err
 }
 
 func c12Reader(r *eng.Run) {
@@ -540,6 +545,13 @@ func c12Helpers(r *eng.Run) {
 	}
 	var cf ws.Frame
 	var err error
+	if variant < 2 && r.T.Chance(sim.LCfg, 1, 6) {
+		// A frame put together as a struct literal, its length left for the
+		// helper to fill in (the helper sets Header.Length from the payload it
+		// produces; the payload to compress is Frame.Payload).
+		f.Header.Length = 0
+		r.Probe("helper_frame_without_length")
+	}
 	switch variant {
 	case 0:
 		cf, err = wsflate.CompressFrame(f)
